@@ -12,9 +12,10 @@ go build ./... || { echo "BUILD FAILS"; exit 1; }
 suite=$(flock /tmp/csvq-suite.lock go test -vet=off -count=1 -p 1 $(go list ./... | grep -v "/$demo") 2>&1 | grep -v '^ok\|no test files')
 if [ -n "$suite" ]; then echo "SUITE FAILS WITH CHANGE: $suite" | head -5; suite_ok=false; else suite_ok=true; fi
 ( "$@" ) > /tmp/seed-$id.with.log 2>&1; rc_with=$?
-git stash -q -- $(git diff --name-only -- . ":!$demo")
+# (not git stash: the stash is shared between all worktrees of a repository)
+git apply -R /tmp/seed-$id.diff
 ( "$@" ) > /tmp/seed-$id.without.log 2>&1; rc_without=$?
-git stash pop -q
+git apply /tmp/seed-$id.diff
 mkdir -p /verif/seeded/$id
 cp /tmp/seed-$id.diff /verif/seeded/$id/patch.diff
 rm -rf /verif/seeded/$id/demo; cp -r "$wt/$demo" /verif/seeded/$id/demo
